@@ -427,7 +427,7 @@ def protocol_integration(res):
                 return _d(*a, **kw)
             setattr(rec, name, both)
         pool = dict(SG.message_pool(S.DEFAULT_CFG['remote_as']))
-        script = [('boot', None), ('connok', 0), ('chunk', 'open_ok'), ('chunk', 'keepalive'), ('chunk', 'update_ok'),
+        script = [('boot', None), ('connok', 0), ('chunk', 'open_unknown_caps'), ('chunk', 'keepalive'), ('chunk', 'update_ok'),
                   ('chunk', 'update_bad_origin'), ('chunk', 'update_bad_prefix'), ('chunk', 'update_withdraw'), ('chunk', 'rr'),
                   ('chunk', 'rr_cisco'), ('chunk', 'update_aspath4'), ('chunk', 'update_mp_unknown_family'),
                   ('chunk', 'update_mpunreach_unknown_family'), ('chunk', 'update_max4096'), ('chunk', 'keepalive')]
